@@ -1,0 +1,34 @@
+//go:build verif
+
+package lua
+
+// Verification hooks for the cancellation check (C11). Readers only: they project the call
+// frames of a thread onto what the abstract cancellation machine looks at. Nothing here changes
+// behaviour of the library.
+
+// VerifCtxFrame is one call frame of a thread: the function it runs and, for the protected-call
+// builtins, the first two arguments (xpcall's handler is the second).
+type VerifCtxFrame struct {
+	Fn         *LFunction
+	Arg1, Arg2 LValue
+}
+
+// VerifCtxFrames lists the call frames of L, bottom first.
+func VerifCtxFrames(L *LState) []VerifCtxFrame {
+	n := L.stack.Sp()
+	out := make([]VerifCtxFrame, 0, n)
+	cell := func(i int) LValue {
+		if i < 0 || i >= len(L.reg.array) || L.reg.array[i] == nil {
+			return LNil
+		}
+		return L.reg.array[i]
+	}
+	for i := 0; i < n; i++ {
+		cf := L.stack.At(i)
+		out = append(out, VerifCtxFrame{Fn: cf.Fn, Arg1: cell(cf.LocalBase), Arg2: cell(cf.LocalBase + 1)})
+	}
+	return out
+}
+
+// VerifCtxWrapped tells whether the thread was created by coroutine.wrap.
+func VerifCtxWrapped(L *LState) bool { return L.wrapped }
